@@ -134,9 +134,12 @@ DoSchema == \E s \in SchemaSpecs \cup FromPolySpecs :
     /\ stage = "init" /\ MODE = "schema" /\ ValidSpec(s)
     /\ cur' = s /\ hist' = s /\ stage' = "s1"
 SliceTrees == TreesN(2, PredSet("p2a"), TermSet("t22a"), 2)
-DoSlice == \E x \in SliceTrees, mk \in {<<TRUE, FALSE>>, <<FALSE, TRUE>>}, rv \in {0, 1, -2}, pr \in BOOLEAN :
+\* direct: infeasible_elimination ; remove_axes (drops the masked coordinates, i.e. the slice at 0) ; infeasible_elimination -
+\* the cached states of the first run must not survive the change of the input space
+DoSlice == \E x \in SliceTrees, mk \in {<<TRUE, FALSE>>, <<FALSE, TRUE>>}, rv \in {0, 1, -2}, pr \in BOOLEAN, dr \in BOOLEAN :
     /\ stage = "init" /\ MODE = "slice"
-    /\ cur' = [tree |-> x, mask |-> mk, ref |-> rv, prune |-> pr] /\ hist' = cur' /\ stage' = "s1"
+    /\ (dr => rv = 0 /\ pr)
+    /\ cur' = [tree |-> x, mask |-> mk, ref |-> rv, prune |-> pr, direct |-> dr] /\ hist' = cur' /\ stage' = "s1"
 DoNet == \E nt \in Nets :
     /\ stage = "init" /\ MODE = "distill"
     /\ cur' = nt /\ hist' = nt /\ stage' = "n1"
@@ -169,7 +172,7 @@ ArchLaw == (stage = "a" /\ MODE = "arch") => cur.shape = OutDimOf(cur.layers, 1,
 Emit ==
     (EMIT /\ stage' # "init") =>
         CASE MODE = "schema" -> PrintT("SCRIPT " \o ToJson([fam |-> "schema", spec |-> hist']))
-          [] MODE = "slice" -> PrintT("SCRIPT " \o ToJson([fam |-> "slice", q |-> 1, lhs |-> ScriptOf(hist'.tree, 2, "dfs"), mask |-> hist'.mask,
+          [] MODE = "slice" -> PrintT("SCRIPT " \o ToJson([fam |-> "slice", q |-> 1, lhs |-> ScriptOf(hist'.tree, 2, "dfs"), mask |-> hist'.mask, direct |-> hist'.direct,
                                                             ref |-> <<hist'.ref, hist'.ref>>, prune |-> hist'.prune]))
           [] MODE = "distill" -> PrintT("SCRIPT " \o ToJson([fam |-> "distill", q |-> 12, dim |-> hist'.dim, layers |-> hist'.layers, pre |-> hist'.pre]))
           [] MODE = "arch" -> (hist'.calls # <<>> => PrintT("SCRIPT " \o ToJson([fam |-> "arch", q |-> 12, dim |-> hist'.dim, calls |-> hist'.calls])))
